@@ -6,10 +6,18 @@ own check reports a violation of a necessary condition of *that* property.
 """
 
 
-def share(ctx, rep, owner_mod, prefixes, label, rule_prefix='shared.'):
+def share(ctx, rep, owner_mod, prefixes, label, rule_prefix='shared.', tolerate_missing_anchor=False):
+    from ..source import AnchorMissing
     prefixes = tuple(prefixes)
     sub = type(rep)(owner_mod.PROP)
-    owner_mod.check(ctx, sub)
+    try:
+        owner_mod.check(ctx, sub)
+    except AnchorMissing as e:
+        if not tolerate_missing_anchor:
+            raise
+        # the owner's own check reports the vanished anchor (exit 2); the borrower goes on without these obligations
+        rep.note('shared.%s.unavailable' % owner_mod.PROP, str(e))
+        return 0
     n = 0
     for r, v in sub.by_rule.items():
         if r.startswith(prefixes):
